@@ -936,6 +936,27 @@ func (p *Prog) liftSitesCompute(f *ssa.Function) ([]ssa.Instruction, bool) {
 	return out, len(out) > 0
 }
 
+// onlyWithin: every execution of f happens inside an execution of root (f is root, or all of f's lift sites are in
+// functions for which this holds).
+func (p *Prog) onlyWithin(f, root *ssa.Function, depth int) bool {
+	if f == root {
+		return true
+	}
+	if depth > 4 {
+		return false
+	}
+	sites, ok := p.liftSites(f)
+	if !ok || len(sites) == 0 {
+		return false
+	}
+	for _, s := range sites {
+		if !p.onlyWithin(s.Parent(), root, depth+1) {
+			return false
+		}
+	}
+	return true
+}
+
 // addressTaken: f is used as a value (not only as a static callee) somewhere in the repo.
 func (p *Prog) addressTaken(f *ssa.Function) bool {
 	if p.addrTaken == nil {
